@@ -156,6 +156,22 @@ CLAIMED = {
         engine='sqlvc+pyvc',
         design_ref='7/C41',
     ),
+    'C08': dict(
+        text='Fragment contracts on the real _create_jobs: every parent id handed to job_parents is an earlier job (0 < parent < job_id) or the bunch is rejected before any write; one job_parents row per listed parent and n_pending_parents = #parents; '
+        'validate_and_clean_jobs loop contract (contiguous ids); commit_batch_update commits only when staged count == declared count. The reserved-range clause is not enforced by the code and is recorded as a known finding.',
+        note=COMMON_NOTE + 'Assumed: each procedure call is atomic (serialisable isolation, justified by the lock-discipline obligations); MySQL NULL/boolean semantics as encoded in vc/sqlvc.py; SQL counter-models cannot be executed here. ' + 'One fix: commit (parent validation) and one known finding (id range). _create_job_group parent existence and completion liveness are listed undecided.',
+        technique='fragment/loop contracts on real Python + procedure obligations on real SQL, pyvc/sqlvc -> z3',
+        engine='pyvc+sqlvc',
+        design_ref='7/C08',
+    ),
+    'C09': dict(
+        text='_create_batch_update.update verified with an effect log for its embedded SQL: a token hit returns the stored (update_id, start_job_group_id, start_job_id) and writes nothing; otherwise exactly one INSERT continuing the last update\'s ranges and the inserted ids are returned in order; '
+        'commit_batch_update writes nothing for a committed update, answers rc 0 and takes a row lock first; ER_DUP_ENTRY path returns before further inserts; client Job/JobGroup._submit and the server compute start + id - 1.',
+        note=COMMON_NOTE + 'Assumed: each procedure call is atomic (serialisable isolation, justified by the lock-discipline obligations); MySQL NULL/boolean semantics as encoded in vc/sqlvc.py; SQL counter-models cannot be executed here. ' + 'Queries recognised by text; FOR UPDATE serialisation assumed; induction over updates is a paper argument; _create_batch short-circuit not yet covered.',
+        technique='function contract with SQL effect log on real Python + procedure obligations, pyvc/sqlvc -> z3',
+        engine='pyvc+sqlvc',
+        design_ref='7/C09',
+    ),
 }
 
 NOT_YET = 'not yet brought within the verifier\'s reach in this build (planned in DESIGN.md section 7); no claim is made'
